@@ -229,6 +229,7 @@ func TestC05Session(t *testing.T) {
 		forge := rapid.Bool().Draw(rt, "forgePastIntegrity") // build hostile plaintext and seal it correctly
 		nInj := rapid.IntRange(1, 40).Draw(rt, "ninj")
 		passed, total := 0, 0
+		oversized := 0
 		rapid.SyncTest(rt, func(rt *rapid.T) {
 			s := sim.NewSessSim(cfg.ClockOff, cfg.EntropySeed)
 			p, err := sim.NewPair(s, cfg, app)
@@ -330,7 +331,29 @@ func TestC05Session(t *testing.T) {
 				}
 				total++
 				buf := append([]byte(nil), raw...)
-				if e == 1 && p.L != nil {
+				if rapid.IntRange(0, 3).Draw(rt, "viaSocket") == 0 {
+					// through the socket and the library's own read loop, as large as
+					// a UDP datagram can be: how much of it the library looks at is
+					// bounded by its read buffer, and everything behind that buffer
+					// relies on the bound
+					big := rapid.SampledFrom([]int{0, 0, 1501, 1600, 4000, 65000}).Draw(rt, "oversize")
+					if big > 0 {
+						typ := uint16(rapid.SampledFrom([]int{0xf1, 0xf2, 0xf3, 0x51}).Draw(rt, "otype"))
+						seq := uint32(rapid.IntRange(0, 40).Draw(rt, "oseq"))
+						rest := make([]byte, big)
+						binary.LittleEndian.PutUint16(rest, uint16(rapid.SampledFrom([]int{2, 26, 1400, big, 65535}).Draw(rt, "osize")))
+						nn := make([]byte, 16)
+						nn[0], nn[1] = byte(total+1), 0xB1
+						if p.Crypto.IsNull() || forge { // sealed only where authentic hostile input is part of the case
+							buf = p.Crypto.Seal(nn, wire.BuildFECRaw(seq, typ, rest))
+						} else {
+							buf = wire.BuildFECRaw(seq, typ, rest)
+						}
+						oversized++
+					}
+					s.Net.Deliver(p.Addr[e].String(), p.Addr[1-e], buf)
+					s.Quiesce()
+				} else if e == 1 && p.L != nil {
 					from := p.Addr[0]
 					if rapid.IntRange(0, 3).Draw(rt, "stranger") == 0 {
 						from = strangers[rapid.IntRange(0, 1).Draw(rt, "who")]
@@ -389,6 +412,9 @@ func TestC05Session(t *testing.T) {
 		}
 		if cfg.FEC[0][0] > 0 {
 			cl = append(cl, "fec_on")
+		}
+		if oversized > 0 {
+			cl = append(cl, "datagram_larger_than_1500_through_the_socket")
 		}
 		rec.Add("n_hostile_inputs", int64(total))
 		rec.Add("n_hostile_inputs_past_first_validation", int64(passed))
